@@ -360,7 +360,7 @@ class Interp:
 
                 async with anyio.create_task_group() as tg:
                     tg.start_soon(leaker)
-                gc.collect()
+                gc.collect(1)  # (the leaked objects are young; a full collection of a large heap costs tens of ms)
                 k_local = depth - 1
             else:
                 k_local = k
